@@ -9,8 +9,8 @@ keeps its position, `pop` removes it. Opaque: `uri_to_iri` on the Path attribute
 on the Expires attribute (fields of `Lib`); the request's server name and path arrive as the
 strings `urlsplit(get_current_url(environ))` yields (computed by the harness with the same calls).
 `str.lower()` is modelled on ASCII letters (the seven attribute names looked up contain no
-character that a non-ASCII letter lower-cases to); `int()` on sign + ASCII digits with single
-underscores.
+character that a non-ASCII letter lower-cases to); `int()` on sign + decimal digits of any script
+(table of the live interpreter's Nd runs, `Gen.Cookie.decimalZeros`) with single underscores.
 -/
 import WzVerif.Model.CookieAttrs
 namespace Wz.Cookie
@@ -62,11 +62,26 @@ def intBody : Str → Bool → Option Str
     else none
 
 /-- `int(text)` for stripped ASCII text; `none` = ValueError -/
-def pyInt (s : Str) : Option Int :=
+def pyIntAscii (s : Str) : Option Int :=
   match s with
   | '-' :: r => (intBody r false).map fun ds => - (digitsVal ds : Int)
   | '+' :: r => (intBody r false).map fun ds => (digitsVal ds : Int)
   | r => (intBody r false).map fun ds => (digitsVal ds : Int)
+
+/-- what `int()` does to one character before parsing (CPython
+`_PyUnicode_TransformDecimalAndSpaceToASCII`): every Unicode decimal digit (category Nd; they come
+in runs of ten starting at the DIGIT ZEROs of `Gen.Cookie.decimalZeros`, regenerated from the live
+interpreter) becomes the ASCII digit of its value; everything else is left alone (and is then no
+digit: `Char.isDigit` is ASCII-only) -/
+def asciiDigit (c : Char) : Char :=
+  if c.toNat < 128 then c
+  else match Gen.Cookie.decimalZeros.find? (fun z => z ≤ c.toNat && c.toNat ≤ z + 9) with
+    | some z => Char.ofNat (48 + (c.toNat - z))
+    | none => c
+
+/-- `int(text)` for stripped text: optional sign, decimal digits of any script, single underscores
+between digits; `none` = ValueError -/
+def pyInt (s : Str) : Option Int := pyIntAscii (s.map asciiDigit)
 
 structure JarCookie where
   key : Str
